@@ -134,6 +134,9 @@ func VerifyFunc(p *Prog, fn *ssa.Function) (res *FuncResult) {
 	}
 	res.Obls = ex.obls
 	res.Notes = ex.notes
+	for _, s := range ex.staleInv {
+		res.Notes = append(res.Notes, "stale-invariant: "+s)
+	}
 	res.SpecErrs = ex.specErrs
 	res.Decls = ex.decls
 	res.Script = ex.script
